@@ -12,6 +12,9 @@ use hyper_util::rt::TokioIo;
 use ipnet::IpNet;
 #[cfg(feature = "uds-listener")]
 use std::path::PathBuf;
+#[cfg(metrics_verif)]
+use super::verif_tokio_net::{TcpListener, TcpStream};
+#[cfg(not(metrics_verif))]
 use tokio::net::{TcpListener, TcpStream};
 #[cfg(feature = "uds-listener")]
 use tokio::net::{UnixListener, UnixStream};
@@ -157,12 +160,17 @@ pub(crate) fn new_http_listener(
     listen_address: SocketAddr,
     allowed_addresses: Option<Vec<IpNet>>,
 ) -> Result<ExporterFuture, BuildError> {
+    #[cfg(metrics_verif)]
+    let listener = TcpListener::bind_simulated(listen_address)
+        .map_err(|e| BuildError::FailedToCreateHTTPListener(e.to_string()))?;
+    #[cfg(not(metrics_verif))]
     let listener = std::net::TcpListener::bind(listen_address)
         .and_then(|listener| {
             listener.set_nonblocking(true)?;
             Ok(listener)
         })
         .map_err(|e| BuildError::FailedToCreateHTTPListener(e.to_string()))?;
+    #[cfg(not(metrics_verif))]
     let listener = TcpListener::from_std(listener).unwrap();
 
     let exporter = HttpListeningExporter {
